@@ -50,6 +50,7 @@ class Aggregate(object):
         self.harness_errors = []
         self.timeouts = 0
         self.notes = {}
+        self.sets = {}
 
     def add(self, i, res):
         st = res.get('status')
@@ -65,6 +66,8 @@ class Aggregate(object):
         merge_counts(self.faults, res.get('faults'))
         merge_counts(self.sites, res.get('sites'))
         merge_counts(self.extra, res.get('extra'))
+        for k, items in (res.get('sets') or {}).items():
+            self.sets.setdefault(k, set()).update(items)
         for d in res.get('digests', []):
             self.all_digests.add(d)
         for d in res.get('nontrivial_digests', []):
@@ -155,6 +158,8 @@ def drive(prop, tier, verif_seed, n_runs, workers, job, rule, level_text,
     cov.update(agg.extra and {'counters': agg.extra} or {})
     if agg.notes:
         cov['notes'] = agg.notes
+    if agg.sets:
+        cov['distinct'] = dict((k, len(v)) for k, v in sorted(agg.sets.items()))
     if extra_coverage:
         cov.update(extra_coverage)
     ev = {
